@@ -195,6 +195,24 @@ func runSpec(s *Spec) (run *Run) {
 			args = append(args, adam.ConstConstraints{Value: func(x ad.ConstVector) bool { return consVec(x) }})
 		}
 		res, err = adam.RunGradient(adam.DenseGradientF(lg.gradObjective(&s.Obj)), x0, args...)
+	case "adam_generic":
+		args := []interface{}{adam.Epsilon{Value: s.Eps}, adam.MaxIterations{Value: s.MaxIt},
+			adam.Beta1{Value: s.Eta0}, adam.Beta2{Value: s.Eta1}, adam.StepSize{Value: s.Step0}}
+		if s.Hook {
+			args = append(args, adam.Hook{Value: func(x, g ad.ConstVector, y ad.ConstScalar) bool {
+				e := Ev{K: "hook", X: vecVals(x), G: vecVals(g), Step: []float64{}}
+				if y != nil {
+					e.HasY, e.Y = true, y.GetFloat64()
+				}
+				e.B = hookVerdict()
+				lg.Ev = append(lg.Ev, e)
+				return e.B
+			}})
+		}
+		if s.Cons {
+			args = append(args, adam.Constraints{Value: func(x ad.Vector) bool { return consVec(x) }})
+		}
+		res, err = adam.Run(lg.objective(&s.Obj), x0, args...)
 	case "gd":
 		args := []interface{}{gradientDescent.Epsilon{Value: s.Eps}}
 		if s.Hook {
@@ -325,6 +343,8 @@ func coqCase(s *Spec, r *Run) string {
 		rt = fmt.Sprintf("%s (mkRp %s %s %s %s %s %s %s)", c, F(s.Step0), F(s.Eta0), F(s.Eta1), F(s.Eps), ZI(s.MaxIt), B(s.Hook), B(s.Cons))
 	case "adam":
 		rt = fmt.Sprintf("RAdam (mkAd %s %s %s %s %s %s %s %s)", F(0.001), F(s.Eta0), F(s.Eta1), F(s.Eps), F(1e-8), ZI(s.MaxIt), B(s.Hook), B(s.Cons))
+	case "adam_generic":
+		rt = fmt.Sprintf("RAdamG (mkAd %s %s %s %s %s %s %s %s)", F(s.Step0), F(s.Eta0), F(s.Eta1), F(s.Eps), F(1e-8), ZI(s.MaxIt), B(s.Hook), B(s.Cons))
 	case "gd":
 		rt = fmt.Sprintf("RGD (mkGd %s %s %s)", F(s.Step0), F(s.Eps), B(s.Hook))
 	case "ls":
@@ -344,7 +364,7 @@ func coqCase(s *Spec, r *Run) string {
 	return fmt.Sprintf("mkCase (%s) %s\n   [%s]\n   %d %s %s", rt, FList(s.X0), strings.Join(evs, ";\n    "), r.Kind, FList(r.Point), FList(r.X0After))
 }
 
-const coqHeader = "From Coq Require Import ZArith List Bool Floats.\nFrom ADV Require Import Base.Num C07.Model C07.ModelNewton C07.ModelNewtonMin C07.ModelSaga C07.ModelBlahut C07.Corr.\nImport ListNotations.\nOpen Scope Z_scope.\n"
+const coqHeader = "From Coq Require Import ZArith List Bool Floats.\nFrom ADV Require Import Base.Num C07.Model C07.ModelNewton C07.ModelNewtonMin C07.ModelSaga C07.ModelBlahut C07.ModelAdamGeneric C07.Corr.\nImport ListNotations.\nOpen Scope Z_scope.\n"
 
 // ---------------------------------------------------------------- generators
 
@@ -435,7 +455,9 @@ func genBox(r *Rng, s *Spec) {
 
 func genSpec(r *Rng) Spec {
 	s := Spec{StopAt: -1, Cap: 600}
-	switch r.Pick([]int{4, 3, 3, 4, 5, 3}) {
+	switch r.Pick([]int{4, 3, 3, 4, 5, 3, 2}) {
+	case 6:
+		s.Routine = "adam_generic"
 	case 5:
 		s.Routine = "adam"
 	case 0:
@@ -475,8 +497,11 @@ func genSpec(r *Rng) Spec {
 		if r.Intn(3) == 0 {
 			genBox(r, &s)
 		}
-	case "adam":
+	case "adam", "adam_generic":
 		s.Step0 = 0.001
+		if s.Routine == "adam_generic" {
+			s.Step0 = pickF(r, 0.001, 0.01, 0.1)
+		}
 		s.Eta0 = pickF(r, 0.9, 0.9, 0.5, 0)
 		s.Eta1 = pickF(r, 0.999, 0.999, 0.9, 0.5)
 		s.MaxIt = []int{-1, 0, 1, 2, 5, 20, 60, 60}[r.Intn(8)]
